@@ -8,9 +8,12 @@ import (
 	"fmt"
 	"os"
 	"path/filepath"
+	"reflect"
 	"sync/atomic"
+	"syscall"
 	"testing"
 	"time"
+	"unsafe"
 
 	"github.com/hashicorp/raft"
 	"github.com/nats-io/nats.go"
@@ -131,6 +134,29 @@ func (h *h3) crashNode(i int) {
 	h.s.Crash(n.node)
 	h.bus.CrashNode(n.node)
 	h.cluster.NodeCrashed(raft.ServerID(n.id))
+	// A killed process loses its file locks. The dead incarnation's tasks never run again, but its
+	// bbolt file (flock) still is open in this process and would keep the next incarnation out.
+	if r, ok := n.srv.raft.Load().(*raftNode); ok && r != nil && r.store != nil {
+		releaseBoltLock(r.store)
+	}
+}
+
+// releaseBoltLock closes the *os.File of a raft-boltdb store without going through bbolt's Close
+// (which takes locks a task frozen mid-transaction may hold). Unexported fields are reached by reflection.
+func releaseBoltLock(store any) {
+	defer func() { recover() }()
+	v := reflect.ValueOf(store).Elem().FieldByName("conn") // *bbolt.DB
+	if !v.IsValid() || v.IsNil() {
+		return
+	}
+	db := v.Elem()
+	f := db.FieldByName("file") // *os.File
+	if !f.IsValid() || f.IsNil() {
+		return
+	}
+	file := *(**os.File)(unsafe.Pointer(f.UnsafeAddr()))
+	syscall.Flock(int(file.Fd()), syscall.LOCK_UN)
+	file.Close()
 }
 
 // stopNode shuts server i down cleanly.
